@@ -198,8 +198,26 @@ func (c *Conversation) rotateKeys(dataMessage dataMsg) error {
 		return err
 	}
 	c.keys.rotateTheirKey(dataMessage.senderKeyID, dataMessage.y)
+	c.keys.counterHistory.forgetRetired(c.keys.ourKeyID-1, c.keys.theirKeyID-1)
 
 	return nil
+}
+
+// forgetRetired drops the counters of key pairs that can't be used anymore,
+// because one of their keys is older than the oldest key still kept
+func (h *counterHistory) forgetRetired(ourOldestKeyID, theirOldestKeyID uint32) {
+	kept := h.counters[:0]
+	for _, c := range h.counters {
+		if c.ourKeyID < ourOldestKeyID || c.theirKeyID < theirOldestKeyID {
+			c.wipe()
+			continue
+		}
+		kept = append(kept, c)
+	}
+	for i := len(kept); i < len(h.counters); i++ {
+		h.counters[i] = nil
+	}
+	h.counters = kept
 }
 
 func (k *keyManagementContext) rotateOurKeys(recipientKeyID uint32, randomness io.Reader) error {
